@@ -138,8 +138,13 @@ class ImageBatch(DataTensor):
                 split_grids = []
                 tensor_indices_or_sections = args[1]
                 if isinstance(tensor_indices_or_sections, int):
-                    for start in range(0, len(grids), tensor_indices_or_sections):
-                        split_grids.append(grids[start : start + tensor_indices_or_sections])
+                    # Number of sections, where first len(grids) % sections parts have one more item
+                    num, extra = divmod(len(grids), tensor_indices_or_sections)
+                    start = 0
+                    for section in range(tensor_indices_or_sections):
+                        end = start + num + (1 if section < extra else 0)
+                        split_grids.append(grids[start:end])
+                        start = end
                 elif isinstance(tensor_indices_or_sections, Sequence):
                     indices = list(tensor_indices_or_sections)
                     for start, end in zip([0] + indices, indices + [len(grids)]):
